@@ -33,6 +33,7 @@ func checkC03(c *Check, a *Anchors) {
 	c07SlotStates(c, a)
 	cancellationPropagates(c, a)
 	sharedOutcomeCallIndependent(c, a)
+	errorBranchExits(c, a, "error-branch-exits")
 }
 
 // ssaLabel names a call instruction by its (static or interface) callee object.
